@@ -219,7 +219,9 @@ pub fn eval_case(case: &Case, st: &mut Stats) -> Vec<Fail> {
             // for an attribute without namespace that is called xmlns: XML has no spelling for them as such.
             fn inexpressible(a: &A) -> bool {
                 (a.k == K::Elem && a.ns.is_empty() && a.nss.iter().any(|d| d.name.is_empty() && !d.ns.is_empty()))
-                    || a.nss.iter().any(|d| d.name == "xmlns" || (d.name == "xml") != (d.ns == XML_NS))
+                    || a.nss.iter().any(|d| d.name == "xmlns" || d.ns == "http://www.w3.org/2000/xmlns/" || (d.name == "xml") != (d.ns == XML_NS))
+                    || a.ns == "http://www.w3.org/2000/xmlns/"
+                    || a.attrs.iter().any(|x| x.ns == "http://www.w3.org/2000/xmlns/")
                     || a.attrs.iter().any(|x| x.ns.is_empty() && x.name == "xmlns")
                     || a.ch.iter().any(inexpressible)
             }
@@ -431,12 +433,63 @@ pub fn run(tier: Tier) -> i32 {
         A::el("", "a").decl("xmlns", X).attr(X, "foo", "v"),
         A::el(X, "a").decl("xmlns", X),
         A::el("", "a").child(A::el("", "xmlns").attr(X, "xmlns", "1").decl("p", X)),
+        A::el("", "a").attr("http://www.w3.org/2000/xmlns/", "foo", "v"),
+        A::el("http://www.w3.org/2000/xmlns/", "a").decl("p", "http://www.w3.org/2000/xmlns/"),
     ] {
         let case = Case::Layout { tree: t, placement: 0 };
         let fails = eval_case(&case, &mut stats);
         stats.bump("reserved_name_cases");
         for f in fails {
             stats.fail(&case, f);
+        }
+    }
+    // a text normalizer must not touch names: namespace URIs are names, not text
+    {
+        struct Composer;
+        impl xot::output::Normalizer for Composer {
+            fn normalize<'a>(&self, content: std::borrow::Cow<'a, str>) -> std::borrow::Cow<'a, str> {
+                if content.contains("e\u{301}") {
+                    std::borrow::Cow::Owned(content.replace("e\u{301}", "\u{e9}"))
+                } else {
+                    content
+                }
+            }
+        }
+        let ns = "http://cafe\u{301}.example/ns";
+        for t in [A::el(ns, "menu").decl("", ns).child(A::el(ns, "item").attr("", "k", "cafe\u{301}")), A::el("", "a").decl("p", ns).attr(ns, "k", "v")] {
+            let doc = A::doc(vec![t]);
+            let mut xot = Xot::new();
+            let root = build1(&mut xot, &doc);
+            stats.evals += 1;
+            stats.bump("normalizer_cases");
+            let case = Case::Layout { tree: doc.ch[0].clone(), placement: 0 };
+            match catch(|| xot.serialize_xml_string_with_normalizer(Default::default(), root, Composer)) {
+                Ok(Ok(text)) => match read_document(&text) {
+                    Read::WellFormed(got) => {
+                        // names must be untouched; attribute values and text are the normalizer's to change
+                        fn names(a: &A, out: &mut Vec<(String, String)>) {
+                            if a.k == K::Elem {
+                                out.push((a.ns.clone(), a.name.clone()));
+                                for x in &a.attrs {
+                                    out.push((x.ns.clone(), x.name.clone()));
+                                }
+                            }
+                            for c in &a.ch {
+                                names(c, out);
+                            }
+                        }
+                        let (mut e, mut g) = (vec![], vec![]);
+                        names(&doc, &mut e);
+                        names(&got, &mut g);
+                        if e != g {
+                            stats.fail(&case, Fail::new("meaning-changed|normalizer-applied-to-namespace-uri", format!("{:?}: names {:?} became {:?}", text, e, g)));
+                        }
+                    }
+                    other => stats.fail(&case, Fail::new("output-unreadable|with-normalizer", format!("{:?}: {:?}", text, matches!(other, Read::Unknown(_))))),
+                },
+                Ok(Err(_)) => {}
+                Err(p) => stats.fail(&case, Fail::new("panic|serialize_xml_string_with_normalizer", p)),
+            }
         }
     }
     // element-less and multi-element fragments through create_missing_prefixes
